@@ -19,13 +19,13 @@ type Fate struct {
 // Store calls: per-arrival fates, an in-flight counter and completion order.
 type GatedStore struct {
 	*RecStore
-	mu         sync.Mutex
-	fates      []Fate
-	arrivals   int
-	inflight   int32
-	Returned   chan struct{} // closed by the harness when MakeRoot has returned
-	Completion []int         // arrival indices in completion order
-	Failed     int           // number of Store calls that returned an error
+	mu          sync.Mutex
+	fates       []Fate
+	arrivals    int
+	inflight    int32
+	Returned    chan struct{} // closed by the harness when MakeRoot has returned
+	Completion  []int         // arrival indices in completion order
+	Failed      int           // number of Store calls that returned an error
 	MaxInFlight int
 	// FailAbove > 0: a Store call that arrives while more than FailAbove calls (itself included) are in
 	// flight fails, like a store that throttles concurrent requests.
